@@ -6,6 +6,9 @@ use crate::cache::error::{CacheError, Result};
 use crate::server::timer;
 use dashmap::mapref::multiple::RefMulti;
 use dashmap::{DashMap, ReadOnlyView};
+#[cfg(memcrs_verif)]
+use simseam::atomic::{AtomicU64, Ordering};
+#[cfg(not(memcrs_verif))]
 use std::sync::atomic::{AtomicU64, Ordering};
 use std::sync::Arc;
 
